@@ -66,9 +66,14 @@ Proof.
   intros Hplain. unfold CliTotal.command, cli_main, phase_of, total_world.
   destruct (parse_flags flag_table args) as [rest fo|m|s|] eqn:Hf; try reflexivity.
   specialize (Hplain rest fo eq_refl).
+  assert (Hy : fbool fo "yaml-output" = false).
+  { unfold outmode_of in Hplain. destruct (fbool fo "yaml-output"); [discriminate|reflexivity]. }
+  assert (Ho : CliTotal.opts_of fo = opts_of fo).
+  { unfold CliTotal.opts_of, opts_of. change (CliTotal.fbool fo) with (fbool fo). change (CliTotal.findent fo) with (findent fo).
+    rewrite Hy. cbn [negb]. rewrite !andb_true_r. reflexivity. }
   unfold CliTotal.classify, after_flags, eff_opts, eff_ins. rewrite Hplain.
   change (CliTotal.fbool fo) with (fbool fo). change (CliTotal.indent_bad fo) with (indent_bad fo).
-  change (CliTotal.opts_of fo) with (opts_of fo).
+  rewrite Ho.
   cbn [CliTotal.w_colors_ok CliTotal.w_argjson_ok CliTotal.w_slurpfile_ok CliTotal.w_rawfile_ok CliTotal.w_jsonargs_ok
        CliTotal.w_queryfile_ok CliTotal.w_parse_ok CliTotal.w_compile_ok CliTotal.w_inputs].
   destruct (fbool fo "help") eqn:Hh; [reflexivity|]. destruct (fbool fo "version") eqn:Hv; [reflexivity|].
